@@ -176,6 +176,8 @@ func (fr *Frame) havocMods(ms *ModSet) {
 	vc := fr.vc
 	if ms.All {
 		vc.havocExcept(&fr.heap, ms.Except)
+	} else if ms.Outside {
+		vc.havocExcept(&fr.heap, vc.e.universe)
 	}
 	for _, m := range ms.list() {
 		vc.havocMap(&fr.heap, m)
@@ -289,8 +291,18 @@ func (fr *Frame) applyContract(c *Contract, f *ssa.Function, sig *types.Signatur
 		vc.e.contractModsVC(vc, c)
 		ms := vc.e.contractWholeMods(c)
 		if !ms.All && len(vc.e.universe) > 0 && !c.External {
-			// frames are tracked inside the universe only: everything outside may change
-			vc.havocExcept(&fr.heap, vc.e.universe)
+			// frames are tracked inside the universe only: outside it the callee's contract-free body summary
+			// says what may change (everything, when there is no body or the summary is unbounded)
+			om := vc.e.contractModsOf(c, f)
+			if om.Outside {
+				vc.havocExcept(&fr.heap, vc.e.universe)
+			} else {
+				for _, m := range om.list() {
+					if !vc.e.inUniverse(m) {
+						vc.havocMap(&fr.heap, m)
+					}
+				}
+			}
 		}
 		for m := range ms.Maps {
 			vc.frameCheckWhole(fr, m, pos, key)
@@ -349,11 +361,20 @@ func (fr *Frame) applyContract(c *Contract, f *ssa.Function, sig *types.Signatur
 		gm := vc.ghostMap(g.Target)
 		vc.hset(&fr.heap, gm, sApp("store", vc.hget(pre, gm), idx.T, val.T))
 	}
-	if !c.External && f != nil {
-		if vc.used == nil {
-			vc.used = map[string]bool{}
+	relied := false
+	markUsed := func() {
+		if !c.External && f != nil {
+			if vc.used == nil {
+				vc.used = map[string]bool{}
+			}
+			vc.used[key] = true
 		}
-		vc.used[key] = true
+	}
+	if c.ModGiven && !(c.ModAll && len(c.Preserves) == 0) {
+		relied = true // the caller keeps knowledge about everything outside the callee's frame
+	}
+	if relied {
+		markUsed()
 	}
 	// postconditions
 	posts := append(append([]*Clause{}, c.Ensures...), c.Assumes...)
@@ -381,6 +402,7 @@ func (fr *Frame) applyContract(c *Contract, f *ssa.Function, sig *types.Signatur
 			continue
 		}
 		vc.assume(fr.curReach, t, "post of "+key)
+		markUsed()
 	}
 	return res
 }
